@@ -344,6 +344,11 @@ impl SetSpeedTrainSim {
         // checking on speed trace to ensure it is at least stopped or moving forward (no backwards)
         #[cfg(feature = "logging")]
         log::info!("Solving time step #{}", self.state.i);
+        // (the step runs from the previous sample to this one: the first step also covers sample 0)
+        ensure!(
+            self.speed_trace.speed[self.state.i - 1] >= si::Velocity::ZERO,
+            format_dbg!(self.speed_trace.speed[self.state.i - 1] >= si::Velocity::ZERO)
+        );
         ensure!(
             self.speed_trace.speed[self.state.i] >= si::Velocity::ZERO,
             format_dbg!(self.speed_trace.speed[self.state.i] >= si::Velocity::ZERO)
